@@ -375,7 +375,9 @@ class P4DirectlyAmplitudeModel(BaseAmplitudeModel):
         from tf_pwa.cal_angle import cal_angle_from_momentum
 
         extra_kwargs = self.extra_kwargs["all_config"]
-        kwargs = {}
+        # options left out of the data section take the defaults of the
+        # data section (config_loader/data.py: random_z is True there)
+        kwargs = {"random_z": True}
         for k in [
             "center_mass",
             "r_boost",
